@@ -24,6 +24,8 @@ struct Shared
     out: Vec<String>,
     ent_names: Vec<Entity>,
     sys_names: Vec<Entity>,
+    /// names (indices into `sys_names`) of the systems made by `ReactCommands::once`
+    onces: Vec<usize>,
     tokens: Vec<RevokeToken>,
     sigs: Vec<Vec<AutoDespawnSignal>>,
     ready: std::collections::HashSet<Entity>,
@@ -343,7 +345,9 @@ fn marker(c: &mut Commands, plus: bool, owner: &str, run: u32, act: usize)
 }
 
 /// Where a scripted action is being interpreted.
-enum Ctx<'a, 'w, 's> { Full(&'a mut Access<'w, 's>), CommandsOnly }
+/// What a scripted action can use besides `Commands`: the reactive accessors, and — where the system could take them as
+/// parameters — the `EntityReactor` handles for a direct `EntityReactor::add` (`ewraddnow`).
+enum Ctx<'a, 'w, 's, 'r> { Full(&'a mut Access<'w, 's>, Option<&'a EntityReactor<'r, Ewr<0>>>, Option<&'a EntityReactor<'r, Ewr<1>>>), CommandsOnly }
 
 fn new_system_name(e: Entity) -> usize
 {
@@ -434,7 +438,8 @@ fn interpret(c: &mut Commands, ctx: &mut Ctx, act: &SAct)
             if SH.with(|s| s.borrow().defs.get(*d).is_none()) { return }
             let name = next_system_name();
             let tok = c.react().once(b, make_ordinary(*d, name, None));
-            new_system_name(*SystemCommand::from(tok.clone()));
+            let k = new_system_name(*SystemCommand::from(tok.clone()));
+            SH.with(|s| s.borrow_mut().onces.push(k));
             mark_ready(c, *SystemCommand::from(tok.clone()));
             SH.with(|s| s.borrow_mut().tokens.push(tok));
         }
@@ -473,7 +478,7 @@ fn interpret(c: &mut Commands, ctx: &mut Ctx, act: &SAct)
         }
         SAct::ResSet(ty, v, neq) =>
         {
-            let Ctx::Full(acc) = ctx else { log("unsupported-in-exclusive".into()); return };
+            let Ctx::Full(acc, ..) = ctx else { log("unsupported-in-exclusive".into()); return };
             if *neq
             {
                 let old = if *ty == 0 { acc.2.set_if_neq(c, Evt::<0>::res(*v)).map(|x| x.1) } else { acc.3.set_if_neq(c, Evt::<1>::res(*v)).map(|x| x.1) };
@@ -483,7 +488,7 @@ fn interpret(c: &mut Commands, ctx: &mut Ctx, act: &SAct)
         }
         SAct::ResRead(ty) =>
         {
-            let Ctx::Full(acc) = ctx else { log("unsupported-in-exclusive".into()); return };
+            let Ctx::Full(acc, ..) = ctx else { log("unsupported-in-exclusive".into()); return };
             let v = if *ty == 0 { acc.2.1 } else { acc.3.1 };
             log(format!("ret {v}"));
         }
@@ -504,20 +509,20 @@ fn interpret(c: &mut Commands, ctx: &mut Ctx, act: &SAct)
         SAct::MutNr(r, ty, v) =>
         {
             let Some(e) = resolve(*r) else { return };
-            let Ctx::Full(acc) = ctx else { log("unsupported-in-exclusive".into()); return };
+            let Ctx::Full(acc, ..) = ctx else { log("unsupported-in-exclusive".into()); return };
             let single = *v % 2 == 0 && if *ty == 0 { acc.5.iter().count() == 1 && acc.5.contains(e) } else { acc.6.iter().count() == 1 && acc.6.contains(e) };
             if single { if *ty == 0 { acc.0.single_noreact().1.0 = *v; } else { acc.1.single_noreact().1.0 = *v; } }
             else if *ty == 0 { if let Ok(x) = acc.0.get_noreact(e) { x.0 = *v; } } else { if let Ok(x) = acc.1.get_noreact(e) { x.0 = *v; } }
         }
         SAct::ResNr(ty, v) =>
         {
-            let Ctx::Full(acc) = ctx else { log("unsupported-in-exclusive".into()); return };
+            let Ctx::Full(acc, ..) = ctx else { log("unsupported-in-exclusive".into()); return };
             if *ty == 0 { acc.2.get_noreact().1 = *v; } else { acc.3.get_noreact().1 = *v; }
         }
         SAct::Mutate(r, ty, v) =>
         {
             let Some(e) = resolve(*r) else { return };
-            let Ctx::Full(acc) = ctx else { log("unsupported-in-exclusive".into()); return };
+            let Ctx::Full(acc, ..) = ctx else { log("unsupported-in-exclusive".into()); return };
             let single = *v % 2 == 0 && if *ty == 0 { acc.5.iter().count() == 1 && acc.5.contains(e) } else { acc.6.iter().count() == 1 && acc.6.contains(e) };
             if single { if *ty == 0 { acc.0.single_mut(c).1.0 = *v; } else { acc.1.single_mut(c).1.0 = *v; } }
             else if *ty == 0 { if let Ok(x) = acc.0.get_mut(c, e) { x.0 = *v; } } else { if let Ok(x) = acc.1.get_mut(c, e) { x.0 = *v; } }
@@ -525,7 +530,7 @@ fn interpret(c: &mut Commands, ctx: &mut Ctx, act: &SAct)
         SAct::SetNeq(r, ty, v) =>
         {
             let Some(e) = resolve(*r) else { return };
-            let Ctx::Full(acc) = ctx else { log("unsupported-in-exclusive".into()); return };
+            let Ctx::Full(acc, ..) = ctx else { log("unsupported-in-exclusive".into()); return };
             let single = *v % 2 == 0 && if *ty == 0 { acc.5.iter().count() == 1 && acc.5.contains(e) } else { acc.6.iter().count() == 1 && acc.6.contains(e) };
             let old = if single { if *ty == 0 { acc.0.set_single_if_not_eq(c, Comp::<0>(*v)).1.map(|x| x.0) } else { acc.1.set_single_if_not_eq(c, Comp::<1>(*v)).1.map(|x| x.0) } }
                 else if *ty == 0 { acc.0.set_if_neq(c, e, Comp::<0>(*v)).map(|x| x.0) } else { acc.1.set_if_neq(c, e, Comp::<1>(*v)).map(|x| x.0) };
@@ -534,7 +539,7 @@ fn interpret(c: &mut Commands, ctx: &mut Ctx, act: &SAct)
         SAct::ReadComp(r, ty) =>
         {
             let Some(e) = resolve(*r) else { return };
-            let Ctx::Full(acc) = ctx else { log("unsupported-in-exclusive".into()); return };
+            let Ctx::Full(acc, ..) = ctx else { log("unsupported-in-exclusive".into()); return };
             let single = if *ty == 0 { acc.5.iter().count() == 1 && acc.5.contains(e) } else { acc.6.iter().count() == 1 && acc.6.contains(e) };
             let v = if single { if *ty == 0 { Some(acc.0.single().1.0) } else { Some(acc.1.single().1.0) } }
                 else if *ty == 0 { acc.0.get(e).ok().map(|x| x.0) } else { acc.1.get(e).ok().map(|x| x.0) };
@@ -566,6 +571,23 @@ fn interpret(c: &mut Commands, ctx: &mut Ctx, act: &SAct)
             if *wr >= SH.with(|s| s.borrow().n_ewr) { return }
             let Some(mut ec) = c.get_entity(e) else { return };
             if *wr == 0 { ec.add_world_reactor::<Ewr<0>>(*v); } else { ec.add_world_reactor::<Ewr<1>>(*v); }
+        }
+        SAct::EwrAddNow(wr, r, v) =>
+        {
+            let Some(e) = resolve(*r) else { return };
+            if *wr >= SH.with(|s| s.borrow().n_ewr) { return }
+            // `EntityReactor::add` called by the body itself where the system has the parameter; the queued form elsewhere
+            let direct = match (&*ctx, *wr)
+            {
+                (Ctx::Full(_, Some(r0), _), 0) => { r0.add(c, e, *v); true }
+                (Ctx::Full(_, _, Some(r1)), 1) => { r1.add(c, e, *v); true }
+                _ => false,
+            };
+            if !direct
+            {
+                let Some(mut ec) = c.get_entity(e) else { return };
+                if *wr == 0 { ec.add_world_reactor::<Ewr<0>>(*v); } else { ec.add_world_reactor::<Ewr<1>>(*v); }
+            }
         }
         SAct::EwrRemove(wr, ts) =>
         {
@@ -622,12 +644,13 @@ fn run_label(local: u32, cap: u32) -> String
 
 /// An ordinary scripted system. `ewr` = index of the entity world reactor this system is (it then reads `EntityLocal`).
 fn make_ordinary(def: usize, name: usize, ewr: Option<usize>)
-    -> impl FnMut(Local<u32>, Commands, EvReaders, EntReaders, Access, &bevy::ecs::entity::Entities) -> AnyRes + Send + Sync + 'static
+    -> impl FnMut(Local<u32>, Commands, EvReaders, EntReaders, Access, (EntityReactor<Ewr<0>>, EntityReactor<Ewr<1>>), &bevy::ecs::entity::Entities) -> AnyRes + Send + Sync + 'static
 {
     debug_assert!(ewr.is_none());
     let canary = Canary(name);
     let mut cap = 0u32;
-    move |mut local: Local<u32>, mut c: Commands, mut ev: EvReaders, er: EntReaders, mut acc: Access, ents: &bevy::ecs::entity::Entities|
+    move |mut local: Local<u32>, mut c: Commands, mut ev: EvReaders, er: EntReaders, mut acc: Access,
+          nows: (EntityReactor<Ewr<0>>, EntityReactor<Ewr<1>>), ents: &bevy::ecs::entity::Entities|
     {
         let _ = &canary;
         let run = *local;
@@ -639,7 +662,7 @@ fn make_ordinary(def: usize, name: usize, ewr: Option<usize>)
         if runaway() { return AnyRes::W(OK); }
         let script = script_for(def, run);
         let owner = format!("s{name}");
-        run_script(&mut c, &mut Ctx::Full(&mut acc), &script, &owner, run);
+        run_script(&mut c, &mut Ctx::Full(&mut acc, Some(&nows.0), Some(&nows.1)), &script, &owner, run);
         log(format!("bodyend s{name}"));
         scripted_result(name, run)
     }
@@ -674,14 +697,14 @@ fn scripted_result(name: usize, run: u32) -> AnyRes
 }
 
 macro_rules! make_ewr_system {
-    ($fname:ident, $n:literal) => {
+    ($fname:ident, $n:literal, $m:literal, $ctx:expr) => {
         fn $fname(def: usize, name: usize)
-            -> impl FnMut(Local<u32>, Commands, EvReaders, EntReaders, Access, EntityLocal<Ewr<$n>>, &bevy::ecs::entity::Entities) + Send + Sync + 'static
+            -> impl FnMut(Local<u32>, Commands, EvReaders, EntReaders, Access, EntityLocal<Ewr<$n>>, EntityReactor<Ewr<$m>>, &bevy::ecs::entity::Entities) + Send + Sync + 'static
         {
             let canary = Canary(name);
             let mut cap = 0u32;
             move |mut local: Local<u32>, mut c: Commands, mut ev: EvReaders, er: EntReaders, mut acc: Access,
-                  loc: EntityLocal<Ewr<$n>>, ents: &bevy::ecs::entity::Entities|
+                  loc: EntityLocal<Ewr<$n>>, other: EntityReactor<Ewr<$m>>, ents: &bevy::ecs::entity::Entities|
             {
                 let _ = &canary;
                 let run = *local;
@@ -698,7 +721,8 @@ macro_rules! make_ewr_system {
                 if runaway() { return; }
                 let script = script_for(def, run);
                 let owner = format!("s{name}");
-                run_script(&mut c, &mut Ctx::Full(&mut acc), &script, &owner, run);
+                // its own `EntityReactor` is inside `EntityLocal`; the other reactor's can be a parameter
+                run_script(&mut c, &mut $ctx(&mut acc, &other), &script, &owner, run);
                 log(format!("bodyend s{name}"));
             }
         }
@@ -706,8 +730,8 @@ macro_rules! make_ewr_system {
 }
 #[derive(Resource, Default)]
 struct EntityReactionProbe;
-make_ewr_system!(make_ewr0, 0);
-make_ewr_system!(make_ewr1, 1);
+make_ewr_system!(make_ewr0, 0, 1, |acc, other| Ctx::Full(acc, None, Some(other)));
+make_ewr_system!(make_ewr1, 1, 0, |acc, other| Ctx::Full(acc, Some(other), None));
 
 fn probe_readers(mut ev: EvReaders, er: EntReaders, ents: &bevy::ecs::entity::Entities) -> String
 {
@@ -811,7 +835,7 @@ thread_local! { static ZST_RUNS: RefCell<std::collections::HashMap<usize, u32>> 
 /// the system the runner is executing (maintained by the hook sink); its "captured" counter lives in a side table keyed by
 /// that name, so that a `Local` shared between two registrations of the same function shows as a label mismatch.
 fn app_reactor<const D: usize>(mut local: Local<u32>, mut c: Commands, mut ev: EvReaders, er: EntReaders, mut acc: Access,
-    ents: &bevy::ecs::entity::Entities) -> AnyRes
+    nows: (EntityReactor<Ewr<0>>, EntityReactor<Ewr<1>>), ents: &bevy::ecs::entity::Entities) -> AnyRes
 {
     let Some(me) = CURRENT.with(|c| c.borrow().last().copied()) else { log("app reactor outside the runner".into()); return AnyRes::W(OK) };
     let name = SH.with(|s| s.borrow().sys_names.iter().position(|x| *x == me)).unwrap_or(usize::MAX);
@@ -824,7 +848,7 @@ fn app_reactor<const D: usize>(mut local: Local<u32>, mut c: Commands, mut ev: E
     if runaway() { return AnyRes::W(OK); }
     let script = script_for(D, cap);
     let owner = format!("s{name}");
-    run_script(&mut c, &mut Ctx::Full(&mut acc), &script, &owner, cap);
+    run_script(&mut c, &mut Ctx::Full(&mut acc, Some(&nows.0), Some(&nows.1)), &script, &owner, cap);
     log(format!("bodyend s{name}"));
     scripted_result(name, cap)
 }
@@ -1059,7 +1083,7 @@ fn top_acts(world: &mut World, t: usize, script: Vec<SAct>)
         return
     }
     world.syscall_once((), move |mut c: Commands, mut acc: Access| {
-        run_script(&mut c, &mut Ctx::Full(&mut acc), &script, &owner, 0);
+        run_script(&mut c, &mut Ctx::Full(&mut acc, None, None), &script, &owner, 0);
     });
 }
 
@@ -1280,6 +1304,7 @@ fn run_scenario(path: &str)
         }
         let world = app.world_mut();
         quiescent(world);
+        log(format!("onces{}", SH.with(|s| s.borrow().onces.iter().map(|k| format!(" s{k}")).collect::<String>())));
         log("end".into());
         // Dropping the app drops every system; silence the canaries/payloads that produces.
         let lines = SH.with(|s| std::mem::take(&mut s.borrow_mut().out));
